@@ -79,6 +79,12 @@ bool buffer::move(buffer &from)
 	if (_size < from._used) {
 		return false;
 	}
+	/* elements keep their type: require same or compatible content */
+	const struct type_traits *t = _content_traits, *f = from._content_traits;
+	if (t != f
+	 && (!t || !f || t->size != f->size || t->fini != f->fini)) {
+		return false;
+	}
 	if (!trim(_used)) {
 		return false;
 	}
